@@ -298,4 +298,4 @@ def strategy(tier):
     )
 
 
-SUBS = [Sub("history", check, strategy=strategy, nontrivial=mixed_after_untrack, classes=classes, n_quick=2000, n_thorough=8000)]
+SUBS = [Sub("history", check, fuzz_runs=4000, strategy=strategy, nontrivial=mixed_after_untrack, classes=classes, n_quick=2000, n_thorough=8000)]
